@@ -77,11 +77,14 @@ theorem parse_sub (c : RxCfg) : ∀ (fs : List Frag) (fuel : Nat) (x t : Bytes),
                     have h := congrArg (List.drop f.chunk) hx6
                     rw [List.drop_append_of_le_length hle, List.drop_left' h7] at h
                     exact h
-                  rcases List.mem_cons.mp hg with hg | hg
-                  · rw [hg, htk]
-                    exact List.mem_cons_self
+                  split at hg
                   · exact List.mem_cons_of_mem _
                       (parse_sub c r fuel _ t (fun q hq => hwf q (List.mem_cons_of_mem _ hq)) hdr g hg)
+                  · rcases List.mem_cons.mp hg with hg | hg
+                    · rw [hg, htk]
+                      exact List.mem_cons_self
+                    · exact List.mem_cons_of_mem _
+                        (parse_sub c r fuel _ t (fun q hq => hwf q (List.mem_cons_of_mem _ hq)) hdr g hg)
                 · cases hg
 
 theorem accepted_sub (hdr : Nat) (c : RxCfg) (fs : List Frag) (hwf : ∀ f, f ∈ fs → FragWF0 f) :
